@@ -348,6 +348,18 @@ def m_lookups(ctx, case):
             nacv.append((b[1][0], b[1][1]))
     for k, v in (("nac_p_EPU", nacp), ("nac_p_VEPU", nacp_v), ("sil", sil_rows), ("nuc_v", nucv), ("nac_v", nacv)):
         monotone(ctx, k, v)
+    # 'None exactly for no-data encodings': the categories DO-260B defines a bound for must keep returning one
+    # (NACp 1-11 horizontal, 9-11 vertical; NACv / NUCv 1-4; SIL 1-3) and category 0 / reserved codes must not invent one
+    for name, catrows, defined in (("nac_p_EPU", nacp, range(1, 12)), ("nac_p_VEPU", nacp_v, range(9, 12)), ("sil", sil_rows, range(1, 4)),
+                                ("nuc_v", nucv, range(1, 5)), ("nac_v", nacv, range(1, 5))):
+        for cat, bound in catrows:
+            if cat in defined and bound is None:
+                ctx.violation("lookup-loses-domain-entry", table=name, category=cat, observed=None)
+            elif cat == 0 and bound is not None:
+                ctx.violation("lookup-invents-bound-for-no-data-category", table=name, category=cat, observed=bound)
+    for cat, bound in rows["nuc_p_HPL"] + rows["nuc_p_RCu"]:
+        if cat is not None and 1 <= cat <= 9 and bound is None:
+            ctx.violation("lookup-loses-domain-entry", table="nuc_p", category=cat, observed=None)
     ctx.hit("lookups")
 
 
